@@ -243,18 +243,18 @@ class H:
                     e = h.tag.make(body_spec.get("cls", "SimError"))
                     sim.fault("task_crash")
                     sim.log("svc_raise", svc=name, exc=describe(e), phase="running")
-                    sim.log("svc_body_end", svc=name, how="crash", view=h.view(c))
+                    sim.log("svc_body_end", svc=name, how="crash", view=h.view(c), fview=h.fview(c))
                     raise e
                 else:
                     await anyio.sleep(1e6)
-                sim.log("svc_body_end", svc=name, how="return", view=h.view(c))
+                sim.log("svc_body_end", svc=name, how="return", view=h.view(c), fview=h.fview(c))
             except BaseException as e:
                 if is_cancel(e):
                     sim.log("svc_cancelled", svc=name)
                     if body_spec.get("cleanup"):
                         with CancelScope(shield=True):
                             await anyio.sleep(body_spec["cleanup"])
-                    sim.log("svc_body_end", svc=name, how="cancelled", view=h.view(c))
+                    sim.log("svc_body_end", svc=name, how="cancelled", view=h.view(c), fview=h.fview(c))
                     if body_spec.get("raise_in_cleanup"):
                         e2 = h.tag.make(body_spec["raise_in_cleanup"])
                         sim.fault("task_crash")
@@ -311,6 +311,25 @@ class H:
                     sim.log("act_begin", svc=name)
                     fire()
 
+            if a.get("wrap"):
+                # "(function, or any callable ...)": the action is a callable *object*,
+                # possibly one that is falsy (a callable collection that is still empty)
+                inner_act = act
+                if a.get("kind") == "async":
+
+                    class _Act:
+                        async def __call__(self_) -> Any:
+                            return await inner_act()
+
+                else:
+
+                    class _Act:  # type: ignore[no-redef]
+                        def __call__(self_) -> Any:
+                            return inner_act()
+
+                if a["wrap"] == "falsy":
+                    _Act.__len__ = lambda self_: 0  # type: ignore[attr-defined]
+                act = _Act()  # type: ignore[assignment]
             kw["teardown_action"] = act
         elif action == "cancel" and spec.get("explicit"):
             kw["teardown_action"] = "cancel"
@@ -696,6 +715,8 @@ def oracle(sim: Sim, plan: dict) -> list[dict]:
             for e in s.get("svc_body_end", []):
                 if e[5]["view"] != d["view"]:
                     v("C08.context", "snapshot_changed", f"service task {name}: visible resources changed from {d['view']} to {e[5]['view']}")
+                if e[5].get("fview") is not None and d.get("fview") is not None and e[5]["fview"] != d["fview"]:
+                    v("C08.context", "factory_snapshot_changed", f"service task {name}: visible resource factories changed from {d['fview']} to {e[5]['fview']} (factories registered elsewhere after the task was started)")
         if "svc_reg" not in s:
             continue
         reg_seq = s["svc_reg"][0][0]
@@ -1112,6 +1133,8 @@ class G:
             else:
                 act["signal"] = True
                 body["mode"] = pick(rng, {"until_signal": 4, "ends_at": 1})
+            if rng.random() < 0.15:
+                act["wrap"] = rng.choice(("obj", "falsy"))
             spec["act"] = act
         if body["mode"] == "ends_at":
             body["life"] = rng.choice(DTS[1:])
